@@ -386,6 +386,44 @@ def tr_s2pd(fn):
             "  (a, S).\n")
 
 
+PRINT_S_BODY = ["func = (lambda x: x) if func is None else func",
+                "a = [pin.name for pin in self.pin_dic]",
+                "ind = list(self.pin_dic.values())",
+                "indsort = np.argsort(a)",
+                "a = [a[i] for i in indsort]",
+                "indsort = np.array(ind)[indsort]",
+                "for pin, i in self.pin_dic.items():\n    print(pin, i)",
+                "S = self.create_S()",
+                "I, J = np.meshgrid(indsort, indsort, indexing='ij')",
+                "S = S[0, I, J] if len(np.shape(S)) == 3 else S[I, J]",
+                "S = func(S) if func is not None else S",
+                "st = '            '",
+                "for p in a:\n    st += f' {p:8} '",
+                "st += '\\n'",
+                "for i, pi in enumerate(a):\n    st += f' {pi:8} '\n    for j, pj in enumerate(a):\n        pr = S[i, j]\n"
+                "        st += f' {pr:8.4f} '\n    st += '\\n'",
+                "print(st)"]
+
+
+def tr_print_S(fn):
+    """print_S: the table that is printed (labels in alphabetical order; row i, column j = func of the entry between the
+    pins labelling row i and column j)"""
+    t = [ast.unparse(x).replace("(I, J) =", "I, J =").replace("for (pin, i) in", "for pin, i in").replace(
+        "for (i, pi) in", "for i, pi in").replace("for (j, pj) in", "for j, pj in") for x in strip_doc(fn.body)]
+    if t != PRINT_S_BODY:
+        k = next((i for i, (x, y) in enumerate(zip(t, PRINT_S_BODY)) if x != y), min(len(t), len(PRINT_S_BODY)))
+        raise Unsupported("Model.print_S changed at statement %d: %s" % (k + 1, (t[k] if k < len(t) else "<missing>")[:200]))
+    return ("Definition print_S_src (m : smodel K) (order : list nat) (func : K -> K) : list spin * list (list K) :=\n"
+            "  let a := sm_pins m in\n"
+            "  let ind := map (sm_idx m) (sm_pins m) in\n"
+            "  let indsort := order in\n"
+            "  let a := map (fun i => nth i a dpin) indsort in\n"
+            "  let indsort := map (fun i => nth i ind 0%nat) indsort in\n"
+            "  let S := sm_S m in\n"
+            "  let S := map (fun I => map (fun J => func (S I J)) indsort) indsort in\n"
+            "  (a, S).\n")
+
+
 def translate(repo: str) -> str:
     p = os.path.join(repo, "lekkersim", "model.py")
     with open(p) as fh:
@@ -400,7 +438,7 @@ def translate(repo: str) -> str:
     t = [ast.unparse(x) for x in strip_doc(find_fn(tree, "Model", "_to_pin").body)]
     if t != ["return pin if isinstance(pin, Pin) else self.pin[pin]"]:      # self.pin: the name table tied by translate_names
         raise Unsupported("Model._to_pin changed: " + " ; ".join(t)[:200])
-    no_override(tree, "SolvedModel", ["get_A", "get_T", "get_PH", "get_output", "_to_pin", "S2PD"])
+    no_override(tree, "SolvedModel", ["get_A", "get_T", "get_PH", "get_output", "_to_pin", "S2PD", "print_S"])
     # what `ns` and the solved parameters ARE in the emitted terms: the sweep length of the matrix, a private copy of the values
     init = [ast.unparse(x) for x in strip_doc(find_fn(tree, "SolvedModel", "__init__").body)]
     for want in ("self.solved_params = deepcopy(param_dic)", "self.ns = np.shape(Smatrix)[0]"):
@@ -414,6 +452,7 @@ def translate(repo: str) -> str:
     out.append(tr_get_data(find_fn(tree, "SolvedModel", "get_data")))
     out.append(tr_full_data(find_fn(tree, "SolvedModel", "get_full_data")))
     out.append(tr_s2pd(find_fn(tree, "Model", "S2PD")))
+    out.append(tr_print_S(find_fn(tree, "Model", "print_S")))
     out.append(PARAM_SRC)
     return "\n".join(out) + "\n"
 
